@@ -3,3 +3,19 @@ from checks import masks_common
 
 def run(ctx):
     masks_common.run(ctx, "proj")
+
+
+MANIFEST = {'engine': "spec/Msg.tla + spec/Masks.tla (TLC) + harness 'masks'",
+ 'technique': 'TLA+ declarative projection; TLC laws (MC), TLC-generated (message, mask) pairs replayed on '
+              'ResponseFilter/Value/Collection/Pull, TLC compares real results with the projection',
+ 'text': 'TLC checks projection laws (idempotent, monotone, parent+child = parent, leaf-wise '
+         'characterisation) on the TLA+ Project operator, generates (message, mask) pairs including every '
+         'single-path and systematically corrupted mask, the harness runs them through FilterClone, Filter, '
+         'Value.Get, Collection.Get/List and Pull seed/update events, and TLC requires every result to equal '
+         'the projection, the stored message to be unchanged, corrupted masks to be reported InvalidArgument '
+         'and no read to panic.',
+ 'note': 'Trusted base: TLC 1.8.0 evaluating the TLA+ predicates; the Go abstraction function (harness/mini, '
+         'Abs/Conc between spec messages and TestAllTypes); the harness reporting faithfully what the real '
+         "code returned. Pull vias are only exercised for valid masks in-process (a panic in Pull's "
+         'goroutine would kill the harness; such a crash is reported as a violation through crash '
+         'attribution).'}
